@@ -22,7 +22,7 @@ FACTORS = dict(
     kernel=["tpcn", "rwm"], resample=["mult", "syst"], clustering=[False, True],
     mode=["vec", "scalar", "blobs", "blobs2"], metric=["ess", "vol"], N=[32, 64], ntot=[2, 5],
 )
-TRIMS = [(0.99, 1000), (0.9, 10), (0.5, 100), (0.999, 1000), (0.99, 2), (0.7, 37)]
+TRIMS = [(0.99, 1000), (0.9, 10), (0.999999, 1000), (0.5, 2), (0.99, 1), (0.5, 100), (0.999, 1000), (0.99, 2), (0.7, 37)]
 
 
 def to_cfg(row, seed):
@@ -126,7 +126,7 @@ def run():
             rows += cover.covering(FACTORS, 3, ck.rng("lattice", extra), valid=lambda r: True)
     if ck.quick:
         rows = rows[:8] if len(rows) > 8 else rows
-    trims = TRIMS[:3] if ck.quick else TRIMS
+    trims = TRIMS[:5] if ck.quick else TRIMS
     ck.tables["pairwise_coverage"] = cover.coverage(rows, FACTORS, 2)
     ck.tables["threeway_coverage"] = cover.coverage(rows, FACTORS, 3)
     tasks = [("tvf.checks.c12:case", dict(cfg=to_cfg(r, ck.subseed("cfg", i)), trims=trims), None) for i, r in enumerate(rows)]
